@@ -141,6 +141,10 @@ type FnCtx struct {
 	safeN    map[string]int
 	loopN    int
 	noSafety bool
+	objTy    bool // record allocations in the object-type map (the contract uses live())
+	monAcqs   map[string]*monAcq // monitor acquisitions by mutex
+	lastAcq   *monAcq
+	Monitored map[string]bool // monitors whose rely/guarantee rule was applied (evidence)
 	specDepth int
 	inSpec   int
 	paramVals map[string]Val // entry values of parameters by name
@@ -751,7 +755,9 @@ func (c *FnCtx) elemAddr(ptr, idx string, elem types.Type) string {
 // alloc returns a fresh address range of n bytes (n an SMT term).
 func (c *FnCtx) allocate(st *State, nbytes string) string {
 	a := c.allocateRaw(st, nbytes)
-	c.facts = append(c.facts, eq(app("objty", a), "0"))
+	if c.objTy {
+		c.facts = append(c.facts, eq(app("objty", a), "0"))
+	}
 	return a
 }
 
@@ -773,6 +779,9 @@ func (c *FnCtx) allocateRaw(st *State, nbytes string) string {
 	st.alloc = na
 	// only the base address of an object carries a type; nothing else between the old and the
 	// new allocation frontier does (padding before the block included)
+	if !c.objTy {
+		return a
+	}
 	c.useObjTy()
 	if oldAlloc == "0" {
 		// objects created while evaluating package-level initialisers: their place relative to
@@ -795,6 +804,9 @@ func (c *FnCtx) useObjTy() {
 
 // markObj records the type of the object just allocated at a.
 func (c *FnCtx) markObj(a string, t types.Type) {
+	if !c.objTy {
+		return
+	}
 	c.useObjTy()
 	c.facts = append(c.facts, eq(app("objty", a), c.typeTag(t)))
 }
